@@ -6,5 +6,5 @@ mkdir -p $B
 cd $B
 coqc -Q /verif/coq/Wire Wire -Q /verif/coq/Spec Spec -Q /verif/coq/Props Props -Q /verif/coq/Extract Extract /verif/coq/Extract/Extract.v > extract.log 2>&1 || { cat extract.log; exit 1; }
 cp /verif/ocaml/*.ml .
-ocamlfind ocamlopt -O3 -package str -linkpkg -w -a model.mli model.ml base.ml p_*.ml driver.ml -o driver 2>/dev/null || \
-ocamlfind ocamlopt -package str -linkpkg -w -a model.mli model.ml base.ml p_*.ml driver.ml -o driver
+ocamlfind ocamlopt -O3 -package str -linkpkg -w -a model.mli model.ml base.ml sess.ml p_*.ml driver.ml -o driver 2>/dev/null || \
+ocamlfind ocamlopt -package str -linkpkg -w -a model.mli model.ml base.ml sess.ml p_*.ml driver.ml -o driver
